@@ -118,8 +118,8 @@ def gen_varsparse(rng, fmt, lib):
             layers[loc].append({"name": name, "width": 500 + rng.choice([0, 30]), "unicodes": [],
                                 "contours": mid, "components": [], "anchors": []})
 
-    def comp(base):
-        sc = rng.choice([1, 1, 1, 0.5, 2])
+    def comp(base, scales=(1, 1, 1, 0.5)):
+        sc = rng.choice(scales)
         t0 = [sc, 0, 0, sc, rng.randint(-100, 300), rng.randint(-100, 200)]
         t1 = [sc, 0, 0, sc, t0[4] + rng.randint(-60, 60), t0[5] + rng.randint(-60, 60)]
         return {"base": base, "t": t0}, {"base": base, "t": t1}
@@ -143,7 +143,9 @@ def gen_varsparse(rng, fmt, lib):
     tops = []
     for i, (name, cp) in enumerate([("A", 0x41), ("B", 0x42), ("C", 0x43)][:rng.randint(2, 3)]):
         pool = middles * 2 + leaves
-        cs = [comp(rng.choice(pool)) for _ in range(rng.randint(1, 2))]
+        # (only the outermost reference may enlarge: a product of 2x2 parts beyond +-2 cannot be
+        # stored in a TrueType composite - that situation is the dedicated stratum below)
+        cs = [comp(rng.choice(pool), (1, 1, 0.5, 2)) for _ in range(rng.randint(1, 2))]
         own0 = [_poly(rng, 4, None)] if rng.random() < 0.3 else []
         own1 = _shift(own0, rng, -20, 20)
         add(name, own0, own1, [a for a, _ in cs], [b for _, b in cs], 600, [cp])
@@ -164,6 +166,21 @@ def gen_varsparse(rng, fmt, lib):
     for n in leaves + middles:
         if rng.random() < 0.25:
             skip.add(n)
+    stratum2 = None
+    if fmt == "ttf" and rng.random() < 0.06:
+        # dedicated stratum of a listed finding: top -(x2)-> skipped middle -(x2)-> exported leaf
+        # with a sparse master: once the middle glyph is inlined the composed 2x2 is 4
+        sparse_leaves = [g["name"] for gl in layers.values() for g in gl if g["name"] in leaves]
+        if sparse_leaves:
+            leaf = sparse_leaves[0]
+            for gl in (g0, g1):
+                gg = {g["name"]: g for g in gl}
+                gg[middles[0]]["components"] = [{"base": leaf, "t": [2, 0, 0, 2, -90, 3]}]
+                gg[tops[0]]["components"] = [{"base": middles[0], "t": [2, 0, 0, 2, 60, -40]}]
+            for gl in layers.values():
+                gl[:] = [g for g in gl if g["name"] != middles[0]]
+            skip = {middles[0]}
+            stratum2 = "inlined_transform_overflow"
     info = {"unitsPerEm": 1000, "familyName": "T", "styleName": "L", "ascender": 800,
             "descender": -200}
     u0 = {"glyphs": g0, "kerning": [], "groups": {}, "lib": {}, "info": info,
@@ -182,7 +199,7 @@ def gen_varsparse(rng, fmt, lib):
     return {"stratum": "varsparse", "fmt": fmt, "lib": lib, "skip": sorted(skip),
             "delivery": "dslib", "decoy": [], "ds": ds,
             "sparse": {str(loc): [g["name"] for g in gl] for loc, gl in layers.items() if gl},
-            "ufo": u0}
+            "substratum": stratum2, "ufo": u0}
 
 
 def gen(rng, idx, tier):
@@ -443,6 +460,8 @@ def run_varsparse(case):
     import ufo2ft
     from fontTools.ttLib import TTFont
     counters = {"varsparse_cases": 1}
+    if case.get("substratum"):
+        counters["varsparse_" + case["substratum"]] = 1
 
     def bump(k, n=1):
         counters[k] = counters.get(k, 0) + n
@@ -672,8 +691,26 @@ def run(case):
             "counters": counters, "nontrivial": nontrivial}
 
 
+def inlined_scale_overflows(glyphs, name, skip, factor=1.0):
+    """After references to skipped glyphs are replaced by their content, does `name` reference a
+    kept glyph with a 2x2 part beyond what a TrueType composite can store (|entry| > 2)?"""
+    for c in glyphs[name].get("components", []):
+        t = c["t"]
+        f = factor * max(abs(t[0]), abs(t[1]), abs(t[2]), abs(t[3]))
+        if c["base"] in skip and c["base"] in glyphs:
+            if inlined_scale_overflows(glyphs, c["base"], skip, f):
+                return True
+        elif factor != 1.0 and f > 2 + 1e-9:
+            return True
+    return False
+
+
 def classify(v, case):
     det = v["detail"]
+    if v["mech"] == "var_rendering_changed" and case.get("fmt") == "ttf":
+        glyphs = {g["name"]: g for g in case["ds"]["ufos"][0]["glyphs"]}
+        if inlined_scale_overflows(glyphs, det["glyph"], set(case["skip"])):
+            return "inlined_reference_overflows_f2dot14_decomposed_without_sparse_master"
     if v["mech"] == "kerning_changed" and det.get("kern_registered") == [True, False]:
         # the kern writer registers its lookups under a script tag only when that script has
         # kerning of its own; once the skipped glyphs take the script's last kerned glyph away the
